@@ -1001,6 +1001,33 @@ type pipeCase struct {
 	// texts that are not valid UTF-8 do not survive JSON: recorded (and replayed) as hex
 	FromHex  string `json:"from_hex,omitempty"`
 	WhereHex string `json:"where_hex,omitempty"`
+	// filter pairs: the filter built in the same process before this one
+	BuiltBefore   string   `json:"built_before,omitempty"`
+	ProbeLiterals []string `json:"probe_literals,omitempty"`
+}
+
+// replayFilterPair: build `before`, then `txt`, in this process; what comes back for `txt` must select like a fresh parse + compile
+func replayFilterPair(sec *vh.Section, p pipeCase) {
+	var evs []*model.LogEvent
+	for _, l := range append(p.ProbeLiterals, "", "zzz") {
+		for _, m := range []string{l, "x" + l + "y", l + "y", "x" + l} {
+			evs = append(evs, &model.LogEvent{Timestamp: 1, Msg: []byte(m)})
+		}
+	}
+	lql.BuildWhereExpFunc(p.BuiltBefore)
+	g, err := lql.BuildWhereExpFunc(p.Where)
+	got := whereFuncOn(g, err, evs)
+	want := "err"
+	if e, perr := lql.ParseExpr(p.Where); perr == nil {
+		fresh, berr := lql.BuildWhereExpFuncByExpression(e)
+		want = whereFuncOn(fresh, berr, evs)
+	}
+	res.Eval(sec, "filterpair "+p.Where)
+	fmt.Printf("built before %q\nthen         %q\nselects      %s\nfresh        %s\n", p.BuiltBefore, p.Where, got, want)
+	if got != want {
+		res.SpecFail(vh.SpecFailure{Section: "pipes", Kind: "meaning-changed", Input: map[string]interface{}{"from": "", "where": p.Where, "built_before": p.BuiltBefore, "probe_literals": p.ProbeLiterals},
+			Impl: "selects " + got, Spec: want, What: "the filter function built for a WHERE text depends on what was built before in the process"})
+	}
 }
 
 func (c *pipeCase) fromRecorded() {
@@ -1266,7 +1293,165 @@ func sectionPipes(rng *vh.Rng) {
 		}
 	}
 	behaviour(sec, rng)
+	filterPairs(sec, rng.Fork("filterpairs"))
 	res.Done(sec)
+}
+
+// whereFuncOn: a filter function evaluated on probe events ("1"/"0" per event); "err:…" when the text does not build
+func whereFuncOn(f lql.WhereExpFunc, err error, evs []*model.LogEvent) string {
+	if err != nil || f == nil {
+		return "err"
+	}
+	var sb strings.Builder
+	p := vh.Recover(func() {
+		for _, ev := range evs {
+			if f(ev) {
+				sb.WriteByte('1')
+			} else {
+				sb.WriteByte('0')
+			}
+		}
+	})
+	if p != "" {
+		return "panic"
+	}
+	return sb.String()
+}
+
+// filterPairs: "the filter builder is a function of its text". In ONE process (this one also hosts the in-process server) filters
+// are built back to back that differ only INSIDE a quoted literal — number / kind of blanks, letter case, escape spelling — or only
+// OUTSIDE the literals (spacing, keyword case: these must behave alike). What lql.BuildWhereExpFunc (the route newPPipe takes)
+// returns for each text must select like a freshly parsed and compiled expression (ParseExpr + BuildWhereExpFuncByExpression) on
+// probe events built from the literals themselves, whatever was built before. A few pairs also go through CREATE PIPE back to
+// back with events written: each pipe must copy exactly the events its own filter selects.
+func filterPairs(sec *vh.Section, rng *vh.Rng) {
+	words := []string{"a", "b", "code", "200", "INFO", "Mar", "5", "x:y", "é", "err"}
+	ops := []string{"contains", "prefix", "suffix", "=", "like", "!="}
+	type pair struct{ l1, l2 string }
+	var pairs []pair
+	n := 60
+	if args.Thorough {
+		n = 600
+	}
+	for i := 0; i < n; i++ {
+		w1, w2 := words[rng.Intn(len(words))], words[rng.Intn(len(words))]
+		k := rng.Range(2, 4)
+		var p pair
+		switch i % 6 {
+		case 0: // run of blanks inside vs one blank
+			p = pair{w1 + strings.Repeat(" ", k) + w2, w1 + " " + w2}
+		case 1: // leading / trailing blanks
+			p = pair{strings.Repeat(" ", k) + w1, " " + w1}
+		case 2: // tab vs blank
+			p = pair{w1 + "\t" + w2, w1 + " " + w2}
+		case 3: // letter case inside the literal
+			p = pair{strings.ToUpper(w1) + " " + w2, strings.ToLower(w1) + " " + w2}
+		case 4: // line break vs blank
+			p = pair{w1 + "\n" + w2, w1 + " " + w2}
+		default: // two runs
+			p = pair{w1 + "  " + w2 + "   " + w1, w1 + " " + w2 + " " + w1}
+		}
+		if rng.Bool() {
+			p.l1, p.l2 = p.l2, p.l1
+		}
+		pairs = append(pairs, p)
+	}
+	for i, p := range pairs {
+		op := ops[i%len(ops)]
+		probe := func(m string) *model.LogEvent { return &model.LogEvent{Timestamp: 1, Msg: []byte(m)} }
+		evs := []*model.LogEvent{probe(p.l1), probe(p.l2), probe("x" + p.l1 + "y"), probe("x" + p.l2 + "y"), probe(p.l1 + "y"), probe("x" + p.l2), probe(""), probe("zzz")}
+		f1 := "msg " + op + " " + strconv.Quote(p.l1)
+		f2 := "msg " + op + " " + strconv.Quote(p.l2)
+		// the same two filters spelled with other spacing / keyword case OUTSIDE the literal: must behave like f1 / f2
+		f1b := "msg   " + strings.ToUpper(op) + "  " + strconv.Quote(p.l1) + " "
+		f2b := " MSG " + op + "\t" + strconv.Quote(p.l2)
+		for _, txt := range []string{f1, f2, f1b, f2b, f2, f1} {
+			g, err := lql.BuildWhereExpFunc(txt)
+			got := whereFuncOn(g, err, evs)
+			want := "err"
+			if e, perr := lql.ParseExpr(txt); perr == nil {
+				fresh, berr := lql.BuildWhereExpFuncByExpression(e)
+				want = whereFuncOn(fresh, berr, evs)
+			}
+			res.Eval(sec, "filterpair "+txt)
+			if got != want {
+				res.SpecFail(vh.SpecFailure{Section: "pipes", Kind: "meaning-changed",
+					Input: map[string]interface{}{"from": "", "where": txt, "built_before": f1, "probe_literals": []string{p.l1, p.l2}},
+					Impl:  "lql.BuildWhereExpFunc(" + strconv.Quote(txt) + ") selects " + got + " after " + strconv.Quote(f1) + " was built in the same process", Spec: want,
+					What:  "the filter function a pipe gets for its WHERE text (lql.BuildWhereExpFunc, as newPPipe calls it) does not select like that text parsed and compiled afresh: it depends on what was built before in the process"})
+			}
+		}
+		res.Dist(sec, "filterpair: literals differ inside ("+[]string{"blank runs", "edge blanks", "tab/blank", "case", "newline/blank", "two runs"}[i%6]+")")
+	}
+	// system level: two pipes back to back whose filters differ only inside the literal
+	m := 2
+	if args.Thorough {
+		m = 6
+	}
+	srv := pipeSrv
+	for i := 0; i < m && i < len(pairs); i++ {
+		p := pairs[i*6] // blank runs
+		pipeSeq++
+		run := fmt.Sprintf("fp%d", pipeSeq)
+		n1, n2 := "fa"+run, "fb"+run
+		f1 := "msg contains " + strconv.Quote(p.l1)
+		f2 := "msg contains " + strconv.Quote(p.l2)
+		if _, err := srv.Exec("create pipe " + n1 + " from run=" + run + " where " + f1); err != nil {
+			res.Note("filterpairs: CREATE PIPE failed for %q: %v", f1, err)
+			continue
+		}
+		if _, err := srv.Exec("create pipe " + n2 + " from run=" + run + " where " + f2); err != nil {
+			res.Note("filterpairs: CREATE PIPE failed for %q: %v", f2, err)
+			srv.Pipes.DeletePipe(n1)
+			continue
+		}
+		msgs := []string{"x" + p.l1 + "y", "x" + p.l2 + "y", "u" + p.l2 + "v", "zzz"}
+		var evs []*api.LogEvent
+		for j, mm := range msgs {
+			evs = append(evs, &api.LogEvent{Timestamp: int64(j + 1), Message: mm})
+		}
+		var wr api.WriteResult
+		if err := srv.Client.Write(context.Background(), "run="+run+",k=v", "", evs, &wr); err != nil || wr.Err != nil {
+			res.Note("filterpairs: write failed: %v %v", err, wr.Err)
+		}
+		want := func(lit string) int {
+			c := 0
+			for _, mm := range msgs {
+				if strings.Contains(mm, lit) {
+					c++
+				}
+			}
+			return c
+		}
+		count := func(name string) int {
+			qr := &api.QueryResult{}
+			err := srv.Client.Query(context.Background(), &api.QueryRequest{Query: "select from logrange.pipe=" + name + " limit 1000", Limit: 1000}, qr)
+			if err != nil || qr.Err != nil {
+				return -1
+			}
+			return len(qr.Events)
+		}
+		w1, w2 := want(p.l1), want(p.l2)
+		c1, c2 := -2, -3
+		deadline := time.Now().Add(8 * time.Second)
+		for time.Now().Before(deadline) {
+			srv.FlushWait()
+			c1, c2 = count(n1), count(n2)
+			if c1 == w1 && c2 == w2 {
+				break
+			}
+			time.Sleep(50 * time.Millisecond)
+		}
+		res.Eval(sec, "filterpair pipes "+f1+" | "+f2)
+		res.Dist(sec, "filterpair: two pipes back to back on written events")
+		if c1 != w1 || c2 != w2 {
+			res.SpecFail(vh.SpecFailure{Section: "pipes", Kind: "meaning-changed", Input: map[string]interface{}{"from": "run=" + run, "where": f2, "built_before": f1},
+				Impl: fmt.Sprintf("pipe with %q copied %d events (expected %d), the pipe created right after it with %q copied %d (expected %d)", f1, c1, w1, f2, c2, w2), Spec: "each pipe copies the events its own filter selects",
+				What: "two pipes created back to back whose filters differ only inside a quoted literal do not each copy what their own filter selects"})
+		}
+		srv.Pipes.DeletePipe(n1)
+		srv.Pipes.DeletePipe(n2)
+	}
 }
 
 // behaviour: two pipes (one through CREATE PIPE, one direct) over written events must copy the same events
@@ -1403,7 +1588,11 @@ func replay(path string) {
 		var p pipeCase
 		json.Unmarshal(rp.Input, &p)
 		p.fromRecorded()
-		runPipeCases(sec, []pipeCase{p})
+		if p.BuiltBefore != "" {
+			replayFilterPair(sec, p)
+		} else {
+			runPipeCases(sec, []pipeCase{p})
+		}
 	case "lexer":
 		var c rtCase
 		json.Unmarshal(rp.Input, &c)
